@@ -1,6 +1,6 @@
 SPECIFICATION TSpec
 CONSTANTS
-  Kinds = {"http_proxy", "socks5", "static_file", "dashboard", "admin"}
+  Kinds = {"http_proxy", "socks5", "static_file", "dashboard", "admin", "vhost_http", "vhost_group"}
   Creds = {"absent", "right", "wrongpw", "otheruser", "malformed", "emptyuser", "emptypw"}
   MaxReqs = 8
   Deviations = {}
